@@ -253,6 +253,10 @@ def _numpy_worker(item):
             a[0, 0], a[-1, -1] = lo, hi
             if case.get('flat') == f:
                 a[:] = a[0, 0]
+            if f in (189, 193):          # a given inline / crossline array is the axis, broadcast (the converter takes its first column / row as the axis)
+                ax = (np.arange(ni) * 3 + 7) if f == 189 else (np.arange(nx) * 2 + 5)
+                ax = np.clip(ax, lo, hi)
+                a = (np.broadcast_to(ax[:, None], (ni, nx)) if f == 189 else np.broadcast_to(ax[None, :], (ni, nx))).astype(dt).copy()
             th[int(f)] = a         # segyio.TraceField.X is a plain int
             expect[f] = a.astype(np.int64)
         kw = {}
